@@ -124,6 +124,13 @@ pub struct Subject {
     /// executable (every other executable subject has one): the write-ahead log then survives the
     /// server's own connections
     bystander: Option<rusqlite::Connection>,
+    keepalive_mode: bool,
+    keepalive: Option<(String, crate::http::KeepAlive)>,
+}
+
+static SOCKET_SUBJECTS: std::sync::atomic::AtomicUsize = std::sync::atomic::AtomicUsize::new(0);
+fn next_keepalive_mode() -> bool {
+    SOCKET_SUBJECTS.fetch_add(1, std::sync::atomic::Ordering::SeqCst) % 2 == 1
 }
 
 static BINARY_SUBJECTS: std::sync::atomic::AtomicUsize = std::sync::atomic::AtomicUsize::new(0);
@@ -146,7 +153,7 @@ impl Subject {
                 (Arc::new(s), Some(d))
             }
         };
-        let mut s = Subject { kind, config, allowlist, storage, front: None, peer: None, peer_turn: 0, dir, wrap, last_http: None, reopens: 0, tap: None, binary: false, bystander: None };
+        let mut s = Subject { kind, config, allowlist, storage, front: None, peer: None, peer_turn: 0, dir, wrap, last_http: None, reopens: 0, tap: None, binary: false, bystander: None, keepalive_mode: kind.socket && next_keepalive_mode(), keepalive: None };
         s.build_front();
         Ok(s)
     }
@@ -156,7 +163,7 @@ impl Subject {
         let kind = Kind { backend: Backend::Sqlite, entry: Entry::Http, reopen_pct, socket: true, peers: false };
         let d = ScratchDir::new("dbbin");
         let st = SqliteStorage::new(d.path())?;
-        let mut s = Subject { kind, config, allowlist, storage: Arc::new(st), front: None, peer: None, peer_turn: 0, dir: Some(d), wrap: None, last_http: None, reopens: 0, tap: None, binary: true, bystander: None };
+        let mut s = Subject { kind, config, allowlist, storage: Arc::new(st), front: None, peer: None, peer_turn: 0, dir: Some(d), wrap: None, last_http: None, reopens: 0, tap: None, binary: true, bystander: None, keepalive_mode: next_keepalive_mode(), keepalive: None };
         s.start_binary()?;
         if BINARY_SUBJECTS.fetch_add(1, std::sync::atomic::Ordering::SeqCst) % 2 == 1 {
             if let Ok(c) = rusqlite::Connection::open(db_file(s.dir.as_ref().unwrap().path())) {
@@ -209,6 +216,8 @@ impl Subject {
             tap: None,
             binary: false,
             bystander: None,
+            keepalive_mode: false,
+            keepalive: None,
         };
         s.build_front();
         Ok(s)
@@ -277,7 +286,19 @@ impl Subject {
         app
     }
 
-    fn sock_call(&self, addr: &str, h: &HttpReq) -> HttpResp {
+    fn sock_call(&mut self, addr: &str, h: &HttpReq) -> HttpResp {
+        // every other socket subject talks over ONE persistent connection (re-opened when the server
+        // closes it or is restarted); the others open a connection per request
+        if self.keepalive_mode && h.fail_after.is_none() {
+            if self.keepalive.as_ref().map(|k| k.0 != addr).unwrap_or(true) {
+                self.keepalive = Some((addr.to_string(), crate::http::KeepAlive::new(addr)));
+            }
+            let r = self.keepalive.as_mut().unwrap().1.request(h, std::time::Duration::from_secs(30));
+            if let Some(t) = &self.tap {
+                t(h, &r);
+            }
+            return r;
+        }
         let framing = if h.body_len() % 2 == 0 { crate::http::Framing::ContentLength } else { crate::http::Framing::Chunked };
         let r = crate::http::socket_request(addr, h, framing, std::time::Duration::from_secs(30));
         if let Some(t) = &self.tap {
